@@ -242,8 +242,8 @@ def run(res, tier="quick", seed=0, widen=False):
     rng = random.Random(seed * 47 + 11 + (1 if widen else 0))
     n_cases = 3000 if tier == "quick" else 30000
     res.rule = ("seeded random logical datasets: 1-3 keys (int/float/str/datetime/categorical with alphabetical, shuffled and reversed category orders, categorical also as "
-                "non-first key), rows in random order or pre-sorted by the raw key values, named and unnamed keys; values as named/unnamed Series, array, polars Series, list, "
-                "dict, pandas/polars frame, 2-D array; 10 reductions; sort on/off; observed_only on/off; masks incl. whole-group-out; checks: label set, order, level count and "
+                "non-first key, time-zone aware datetimes), rows in random order or pre-sorted by the raw key values, named and unnamed keys; values as named/unnamed Series, array, polars Series, list, "
+                "dict, pandas/polars frame, 2-D array, lists whose members share a name; 10 reductions; sort on/off; observed_only on/off; masks incl. whole-group-out; checks: label set, order, level count and "
                 "names, Series name / column labels, container type, every column equal to the single-input result; non-trivial = >= 2 labels; distinct = canonical case")
     for ci in range(n_cases):
         c = gen_case(rng, tier)
